@@ -7,5 +7,6 @@ CONSTANTS
   DevEmpty = FALSE
   Disturbs = FALSE
   DevRows = FALSE
+  DevInd = FALSE
 INVARIANTS LengthInv StepOK WitnessPrint ActionPrint
 CHECK_DEADLOCK FALSE
